@@ -95,6 +95,7 @@ class Dumper:
         self.n_steal = 0
         self.n_respill = 0
         self.n_classes = 0
+        self.n_init_stores = 0
         self.init_effect = None
         self.n_class_claims = 0
         self.class_text: list[str] = []
@@ -130,6 +131,33 @@ class Dumper:
                     self.steal_before.setdefault(op, []).extend(pending)
                     pending = []
             assert not pending
+
+    def init_effects(self, bcl, depth: int):
+        """(attrs init-stored, attrs stored at all, may self escape) of bcl.__init__, following direct super calls."""
+        from mypyc.ir import ops as O
+        inits: set[str] = set()
+        stored: set[str] = set()
+        leaks = bool(bcl.init_self_leak)
+        try:
+            callee = bcl.get_method("__init__")
+        except Exception:
+            callee = None
+        if callee is None or not callee.arg_regs or depth > 8:
+            return inits, stored, True if callee is not None else leaks
+        cself = callee.arg_regs[0]
+        for cb in callee.blocks:
+            for cop in cb.ops:
+                if isinstance(cop, O.SetAttr) and cop.obj is cself:
+                    stored.add(cop.attr)
+                    if cop.is_init and cop.class_type.attr_type(cop.attr).is_refcounted:
+                        inits.add(cop.attr)
+                elif isinstance(cop, O.Call) and cop.fn.class_name and cop.fn.name == "__init__" and cop.args \
+                        and cop.args[0] is cself:
+                    i2, s2, l2 = self.init_effects(cop.fn.sig.args[0].type.class_ir, depth + 1)
+                    inits |= i2
+                    stored |= s2
+                    leaks = leaks or l2
+        return inits, stored, leaks
 
     def owner_of(self, op, LIT, ext):
         """The value a borrowed refcounted result is borrowed from (None: static / unknown)."""
@@ -191,6 +219,70 @@ class Dumper:
                 opt = 1 if sig_args[i].optional else 0
             w(f"A {vid(a)} {int(a.type.is_refcounted)} {opt}\n")
         labels = {b: i + 1 for i, b in enumerate(fn.blocks)}
+        # ---- attribute slot tokens (SetAttr.is_init): one token per (object value, refcounted attribute)
+        RAW = (O.ComparisonOp, O.GetElementPtr, O.LoadMem, O.IncRef, O.DecRef, O.KeepAlive, O.IntOp,
+               O.Truncate, O.Extend, O.GetElement, O.LoadAddress)
+        toks: dict[Any, int] = {}
+
+        def tok(objv, attr: str) -> int:
+            key = ("slot", objv, attr)
+            if key not in toks:
+                toks[key] = vid(key)
+            return toks[key]
+        self_reg = None
+        if fn.decl.class_name and fn.name in ("__init__", "__mypyc_defaults_setup") and fn.arg_regs \
+                and hasattr(fn.arg_regs[0].type, "class_ir"):
+            self_reg = fn.arg_regs[0]
+            cl0 = self_reg.type.class_ir
+            unset0 = []
+            for base in cl0.mro:
+                for an, at in base.attributes.items():
+                    if at.is_refcounted and ("slot", self_reg, an) not in toks:
+                        t0 = tok(self_reg, an)
+                        # fresh object: everything unset, except (in __init__) what the class body initialised
+                        if fn.name != "__init__" or an not in cl0.attrs_with_defaults:
+                            unset0.append(t0)
+            if unset0:
+                w(f"K {len(unset0)} " + " ".join(map(str, unset0)) + "\n")
+
+        def slot_effects(op) -> tuple[list[int], list[int]]:
+            """(tokens that must be unset, tokens possibly set afterwards) of a non-control op."""
+            need: list[int] = []
+            kill: list[int] = []
+            plain_set = isinstance(op, O.SetAttr) and not op.is_propset
+            if plain_set and op.class_type.attr_type(op.attr).is_refcounted:
+                if op.is_init:
+                    need.append(tok(op.obj, op.attr))
+                    self.n_init_stores += 1
+                else:
+                    # a plain store sets the slot of THAT object; tokens exist only for the fresh self, which no
+                    # other name can alias before it escapes (Assign from self / any leak kills all its tokens)
+                    kill += [t for (_, _o, a), t in toks.items() if a == op.attr and _o is op.obj]
+            if self_reg is not None and any(x is self_reg for x in op.sources()):
+                escapes = True
+                if isinstance(op, RAW):
+                    escapes = False
+                elif isinstance(op, O.GetAttr) and op.obj is self_reg and not op.class_type.class_ir.get_method(op.attr):
+                    escapes = False
+                elif plain_set and op.obj is self_reg and op.src is not self_reg:
+                    escapes = False
+                if escapes:
+                    all_self = [t for (_, o_, _a), t in toks.items() if o_ is self_reg]
+                    if isinstance(op, O.Call) and op.fn.class_name and op.fn.name == "__init__" and op.args \
+                            and op.args[0] is self_reg and not any(x is self_reg for x in op.args[1:]):
+                        # direct Base.__init__(self, ...): its initializing stores assume unset slots; if it does not
+                        # let self escape it only touches the attributes it stores
+                        inits, stored, leaks = self.init_effects(op.fn.sig.args[0].type.class_ir, 0)
+                        for an in sorted(inits):
+                            if ("slot", self_reg, an) in toks and toks[("slot", self_reg, an)] not in need:
+                                need.append(toks[("slot", self_reg, an)])
+                        if leaks:
+                            kill += [t for t in all_self if t not in kill]
+                        else:
+                            kill += [t for (_, o_, a_), t in toks.items() if o_ is self_reg and a_ in stored and t not in kill]
+                    else:
+                        kill += [t for t in all_self if t not in kill]
+            return need, kill
         # Registers whose address is handed to a callee (out-parameters of the generator protocol): what
         # they hold depends on the callee's return value, which this abstraction cannot express.  They are
         # treated as EXTERNAL storage (like an attribute): stores into them consume the stored reference,
@@ -292,9 +384,14 @@ class Dumper:
                         ow = self.owner_of(op, LIT, ext)
                         if ow is not None:
                             owner = vid(ow)
+                    need, kill = slot_effects(op)
+                    if need and isinstance(op, O.Call):
+                        flag = 1      # marks "the callee's initializing stores" (for reporting only)
                     w(f"O {kind} {d} {rc} {bor} {maynull} {flag} {len(srcs)} "
                       + "".join(f"{vid(s)} " for s in srcs) + f"{len(stolen)}"
-                      + "".join(f" {vid(s)}" for s in stolen) + f" {owner}\n")
+                      + "".join(f" {vid(s)}" for s in stolen) + f" {owner}"
+                      + f" {len(need)}" + "".join(f" {t}" for t in need)
+                      + f" {len(kill)}" + "".join(f" {t}" for t in kill) + "\n")
         w("E\n")
         pretty = f"### {name}\n" + "\n".join(format_func(fn)) + "\n" if self.txt is not None else ""
         if self.pending and self.pending[-1][0] is fn:
@@ -540,7 +637,7 @@ def child_main(jobfile: str) -> None:
                "n_respill": d.n_respill, "n_ext_regs": d.n_ext_regs,
                "n_assume": d.n_assume, "n_spill_reads": d.n_spill_reads, "n_borrow_owner": d.n_borrow_owner,
                "n_borrow_static": d.n_borrow_static, "n_borrow_unknown": d.n_borrow_unknown,
-               "n_classes": d.n_classes, "n_class_claims": d.n_class_claims},
+               "n_classes": d.n_classes, "n_class_claims": d.n_class_claims, "n_init_stores": d.n_init_stores},
               open(job["out"] + ".status", "w"))
 
 
@@ -568,6 +665,10 @@ def parse_dump(path: str):
             if c == "F":
                 name, args, blocks, cur, raw = t[1], [], {}, None, [ln]
                 continue
+            if c == "K":
+                raw.append(ln)
+                args.append(("K", [int(x) for x in t[2:]]))
+                continue
             raw.append(ln)
             if c == "A":
                 args.append((int(t[1]), int(t[2]), int(t[3])))
@@ -580,7 +681,15 @@ def parse_dump(path: str):
                 m = int(t[8 + n])
                 stolen = [int(x) for x in t[9 + n:9 + n + m]]
                 owner = int(t[9 + n + m]) if len(t) > 9 + n + m else 0
-                blocks[cur][0].append((int(t[1]), int(t[2]), int(t[3]), int(t[4]), int(t[5]), int(t[6]), srcs, stolen, owner))
+                p = 10 + n + m
+                need, kill = [], []
+                if len(t) > p:
+                    k = int(t[p])
+                    need = [int(x) for x in t[p + 1:p + 1 + k]]
+                    p += 1 + k
+                    k = int(t[p])
+                    kill = [int(x) for x in t[p + 1:p + 1 + k]]
+                blocks[cur][0].append((int(t[1]), int(t[2]), int(t[3]), int(t[4]), int(t[5]), int(t[6]), srcs, stolen, owner, need, kill))
             elif c == "G":
                 blocks[cur][1] = ("G", int(t[1]))
             elif c == "C":
@@ -698,7 +807,7 @@ def py_check(args, blocks) -> str:
     def transfer(lbl, s):
         s = dict(s)
         ops, term = blocks[lbl]
-        for i, (kind, d, rc, bor, maynull, flag, srcs, stolen, owner) in enumerate(ops):
+        for i, (kind, d, rc, bor, maynull, flag, srcs, stolen, owner, need, kill) in enumerate(ops):
             where = f"L{lbl - 1}.{i}"
             if kind in (K_OTHER, K_ASSIGNMULTI, K_UNBORROW, K_KEEPALIVE, K_HEAPREF, K_RAWREAD):
                 for v in srcs:
@@ -748,6 +857,12 @@ def py_check(args, blocks) -> str:
             elif kind == K_DEC:
                 a = get(s, srcs[0])
                 release(s, srcs[0], where, strict=not flag)
+            for t_ in need:
+                if get(s, t_)[0] != "N":
+                    raise Reject(f"{where}: initializing store to a possibly-set slot, token v{t_}")
+                s[t_] = U
+            for t_ in kill:
+                s[t_] = U
         where = f"L{lbl - 1}.term"
         if term[0] == "G":
             return [(term[1], s)]
@@ -788,7 +903,12 @@ def py_check(args, blocks) -> str:
 
     ann: dict[int, dict] = {}
     init = {}
-    for v, rc, opt in args:
+    for arg in args:
+        if arg[0] == "K":
+            for t_ in arg[1]:
+                init.setdefault(t_, ("N", 0))
+            continue
+        v, rc, opt = arg
         init[v] = ("M", 0, 1, 0) if opt else ("O", 0, 1)
     ann[1] = init
     work = [1]
@@ -876,7 +996,8 @@ def run_dump(repo: str, items: list[dict], tmp: str, nproc: int, pretty: bool = 
         res = list(ex.map(one, range(len(chunks))))
     dumps, status, failures = [], [], []
     counters = {"n_steal": 0, "n_heapref": 0, "n_unnamed_undef": 0, "n_respill": 0, "n_ext_regs": 0, "n_assume": 0, "n_spill_reads": 0,
-                "n_borrow_owner": 0, "n_borrow_static": 0, "n_borrow_unknown": 0, "n_classes": 0, "n_class_claims": 0}
+                "n_borrow_owner": 0, "n_borrow_static": 0, "n_borrow_unknown": 0, "n_classes": 0, "n_class_claims": 0,
+                "n_init_stores": 0}
     counters["chunks_skipped_for_time"] = len(skipped)
     for out, st, err in res:
         if out is None:
@@ -980,7 +1101,8 @@ def gen_program(rng, k: int) -> str:
     return "\n".join(out)
 
 
-CODE_TEXT = {1: "operand read while uninitialised / undefined local / released / possibly-null where not allowed",
+CODE_TEXT = {11: "initializing attribute store (SetAttr.is_init, the old value is not released) to a slot that may already be set",
+             1: "operand read while uninitialised / undefined local / released / possibly-null where not allowed",
              2: "release (dec_ref / steal / return) of a reference the value does not own",
              3: "dec_ref / release of the error value (NULL), of a never-assigned or of a dead value",
              4: "inc_ref of NULL or of a released value", 5: "an owned reference is overwritten (leak)",
@@ -996,6 +1118,14 @@ def classify(name: str, code: int) -> tuple[str, str]:
         return ("gen-close-null-decref",
                 "generator close(): the GeneratorExit lookup result is dec_ref'ed on the path where the lookup "
                 "failed and the StopIteration lookup in the handler fails too (dec_ref of NULL -> crash)")
+    if code == 11 and fn.endswith("__mypyc_defaults_setup"):
+        return ("overridden-class-default-init-store-leaks",
+                "a subclass overrides a class-body attribute default: __mypyc_defaults_setup stores the base default and "
+                "then the overriding one, both as INITIALIZERS, so the base default value is never released")
+    if code == 11:
+        return (f"init-store-to-possibly-set-slot:{name.split('::', 1)[-1]}",
+                "an initializing attribute store (SetAttr.is_init: the old value is NOT released) reaches a slot that is not "
+                "provably unset (not the fresh self of __init__/__mypyc_defaults_setup, or already stored to / escaped)")
     if "__mypyc_generator_helper__" in fn and code == 2:
         return ("spill-borrowed-value-stolen",
                 "spill.py stores a BORROWED value that is live across a yield/await (e.g. a bytes/tuple/float "
@@ -1016,8 +1146,14 @@ def micro_to_op(raw: list[str], label: int, mi: int) -> str:
             n = int(t[7])
             m = int(t[8 + n])
             ln_ = (n + m + (1 if t[2] != "0" else 0)) if kind in (K_OTHER, K_ASSIGNMULTI, K_KEEPALIVE, K_HEAPREF, K_UNBORROW, K_RAWREAD) else 1
+            if kind == K_KEEPALIVE:
+                ln_ = n + m
+            p_ = 10 + n + m
+            if len(t) > p_:
+                k1 = int(t[p_])
+                ln_ += k1 + int(t[p_ + 1 + k1])
             if acc + ln_ > mi:
-                return f"L{label - 1} op#{idx}"
+                return f"L{label - 1} op#{idx}" + (" (call of an __init__ with initializing stores)" if kind == K_OTHER and t[6] == "1" else "")
             acc += ln_
             idx += 1
     return f"L{label - 1} terminator"
@@ -1041,7 +1177,8 @@ def pretty_of(dumps: list[str], name: str) -> str:
 # --------------------------------------------------------------------------------------------
 
 DYN_MOD = '''import asyncio
-from typing import Optional, Iterator
+from typing import Optional, Iterator, List
+from mypy_extensions import i64
 class T:
     def __init__(self, n: int) -> None:
         self.n = n
@@ -1130,6 +1267,45 @@ def f_loop_undef(a: T, n: int) -> T:
     for i in range(n):
         e = mk(i)
     return e
+async def mk_async(n: int) -> T:
+    await asyncio.sleep(0)
+    return T(n)
+async def build_rows(n: int) -> int:
+    out: List[List[T]] = []
+    for i in range(n):
+        out.append([T(i), await mk_async(i)])
+    return len(out)
+class Chain:
+    def __init__(self, prev: Optional['Chain'], p: T) -> None:
+        if prev is not None:
+            prev.payload = T(-1)
+        self.payload: T = p
+def chain(n: int) -> int:
+    c = Chain(None, T(0))
+    for i in range(n):
+        c = Chain(c, T(i))
+    return n
+class SB:
+    def __init__(self) -> None:
+        self.t = T(0)
+class SD(SB):
+    def __init__(self) -> None:
+        self.t = T(1)
+        super().__init__()
+class DA:
+    d: T = T(10)
+class DB(DA):
+    d: T = T(11)
+def del_i64(b: bool) -> i64:
+    x: i64 = 5
+    if b:
+        del x
+    return x
+def del_float(b: bool) -> float:
+    y: float = 5.0
+    if b:
+        del y
+    return y
 async def hb() -> bytes:
     await asyncio.sleep(0)
     return b"!"
@@ -1201,6 +1377,13 @@ same("tryfin_undef", lambda: m.f_tryfin_undef(a, 3), lambda: mi.f_tryfin_undef(a
 same("tryfin_undef2", lambda: m.f_tryfin_undef2(a, 3), lambda: mi.f_tryfin_undef2(ai, 3))
 same("tryfin_def", lambda: m.f_tryfin_undef2(a, 300).n, lambda: mi.f_tryfin_undef2(ai, 300).n)
 same("loop_undef", lambda: m.f_loop_undef(a, 0), lambda: mi.f_loop_undef(ai, 0))
+run("chain", lambda: m.chain(5))
+run("rows", lambda: asyncio.run(m.build_rows(4)))
+run("super_init_after_store", lambda: m.SD())
+run("overridden_default", lambda: m.DB())
+same("del_i64", lambda: m.del_i64(True), lambda: mi.del_i64(True))
+same("del_float", lambda: m.del_float(True), lambda: mi.del_float(True))
+same("del_i64_defined", lambda: m.del_i64(False), lambda: mi.del_i64(False))
 print("PHASE1 " + json.dumps(res), flush=True)
 async def main():
     r0 = sys.getrefcount(m.probe())
@@ -1245,16 +1428,20 @@ def dynamic_monitor(ctx, tmp: str) -> None:
     os.remove(os.path.join(d, "c06dyn.py"))
     env["PYTHONPATH"] = vlib.REPO + os.pathsep + d
     st, out = vlib.sh([vlib.PY, "drive.py"], cwd=d, env=env, timeout=300)
-    ctx.add("dynamic_runs", 18 * 1000)
+    ctx.add("dynamic_runs", 25 * 1000)
     m = re.search(r"PHASE1 (\{.*\})", out)
     if not m:
         ctx.violation("dyn-phase1-crash", f"compiled monitor functions crashed (status {st})", {"module": DYN_MOD, "driver": DYN_DRIVER, "output": out[-1500:]})
     else:
         res = json.loads(m.group(1))
         ctx.cov["dynamic_phase1"] = res
+        special = {"super_init_after_store": "super-init-after-store-leaks",
+                   "overridden_default": "overridden-class-default-init-store-leaks",
+                   "del_i64": "del-of-bitmap-tracked-local-reads-error-sentinel",
+                   "del_float": "del-of-bitmap-tracked-local-reads-error-sentinel"}
         for k, v in res.items():
             if v != "ok":
-                ctx.violation(f"dyn-{k}", f"compiled function {k}: reference counts / instance counts not stable or wrong exception: {v}",
+                ctx.violation(special.get(k, f"dyn-{k}"), f"compiled function {k}: reference counts / instance counts not stable or wrong exception: {v}",
                               {"module": DYN_MOD, "driver": DYN_DRIVER, "function": k, "result": v})
     if "LITDONE" not in out:
         lr = re.search(r"LITREF (\d+) (\d+)", out)
@@ -1403,6 +1590,11 @@ def run(ctx) -> None:
             ctx.broke("C", "coverage", f"only {n} functions were dumped")
         for key, lst in sorted(rejected.items()):
             name, lbl, mi, code, val, what, raw = lst[0]
+            if code == 11 and "call of an __init__" in micro_to_op(raw, lbl, mi):
+                key = "super-init-after-store-leaks"
+                what = ("Derived.__init__ stores an attribute and then calls Base.__init__(self), whose store to the same "
+                        "attribute is an INITIALIZER (is_init: old value not released): the derived value leaks on every "
+                        "construction")
             ctx.violation(key, f"{what} [{len(lst)} function(s), e.g. {name} at {micro_to_op(raw, lbl, mi)}, value v{val}, code {code}]",
                           {"function": name, "count": len(lst), "others": [x[0] for x in lst[1:20]],
                            "at": micro_to_op(raw, lbl, mi), "code": code, "code_text": CODE_TEXT.get(code),
